@@ -282,7 +282,9 @@ func VH_C13_service_area_list() {
 	if allowed {
 		rt = models.RestrictionType_ALLOWED_AREAS
 	}
-	out := PartialServiceAreaListToNas(p.id, models.ServiceAreaRestriction{RestrictionType: rt, Areas: areas})
+	// the subscription limits carried in the same structure are not part of the encoding: any values
+	out := PartialServiceAreaListToNas(p.id, models.ServiceAreaRestriction{RestrictionType: rt, Areas: areas,
+		MaxNumOfTAs: vrt.I32("maxTAs"), MaxNumOfTAsForNotAllowedAreas: vrt.I32("maxTAsNotAllowed")})
 	// decoder per 9.11.3.49, partial service area list type 00
 	vrt.Assert(len(out) == 4+3*len(all), "service area list: header, PLMN, one 3-octet TAC per TAC")
 	vrt.Assert((out[0]>>7 == 0) == allowed, "allowed type bit: 0 = allowed area, 1 = non-allowed area")
